@@ -1026,6 +1026,27 @@ def generate_problems(mods):
     return PROB_HEAD + "\n".join(out) + "end\nend Gen.PSrc\n", errors
 
 
+def generate_method_ctl(method_cls):
+    """statement trees (same `Stmt` as ProcessSrc) of the procedures of `Method` that sequence the search: FirstIteration,
+    CalculateIterationPoint, RecalcAllCharacteristics, CalculateFunctionals, UpdateOptimum, RenewSearchData, FinalizeIteration,
+    CheckStopCondition"""
+    out = ["-- GENERATED by harness/src2lean.py from the SOURCE TEXT of iOpt/method/method.py under /repo; do not edit.\n"
+           "import IOptGen.ProcessSrc\n"
+           "/-!\nThe procedures of `Method` that sequence one iteration, as statement trees (`Gen.ProcSrc.Stmt`): which calls are made, in which\n"
+           "order, with which argument expressions (normalised source text).  The arithmetic inside the called formulas is translated\n"
+           "separately (`IOptGen/MethodSrc.lean`).\n-/\nnamespace Gen.MethodCtl\nopen Gen.ProcSrc\n"]
+    for name, attr in (("firstIteration", "FirstIteration"), ("calculateIterationPoint", "CalculateIterationPoint"),
+                       ("recalcAllCharacteristics", "RecalcAllCharacteristics"), ("calculateFunctionals", "CalculateFunctionals"),
+                       ("updateOptimum", "UpdateOptimum"), ("renewSearchData", "RenewSearchData"),
+                       ("finalizeIteration", "FinalizeIteration"), ("checkStopCondition", "CheckStopCondition")):
+        fa = func_ast(getattr(method_cls, attr))
+        params = [a.arg for a in fa.args.args]
+        out.append(f"/-- parameters of `Method.{attr}` -/\ndef {name}Params : List String := "
+                   + "[" + ", ".join(_lean_str(x) for x in params) + "]\n")
+        out.append(f"/-- body of `Method.{attr}` -/\ndef {name} : List Stmt :=\n  " + _stmts_to_lean(fa.body, 2) + "\n")
+    return "\n".join(out) + "\nend Gen.MethodCtl\n", []
+
+
 def problem_classes():
     from iOpt.problems.rastrigin import Rastrigin
     from iOpt.problems.xsquared import XSquared
@@ -1152,6 +1173,8 @@ if __name__ == "__main__":
     if "--s3" in sys.argv:
         from iOpt.problems.stronginC3 import StronginC3
         text, errors = generate_s3(StronginC3)
+    if "--mctl" in sys.argv:
+        text, errors = generate_method_ctl(mm.Method)
     if "--proc" in sys.argv:
         from iOpt.method.process import Process
         text, errors = generate_process(Process)
